@@ -152,6 +152,20 @@ def run_b2(family, progs, steps, seed, nproc=8, tool="ksgen", extra=()):
     return out
 
 
+def run_ttl_random(n, seed):
+    """Real-clock random ttl programmes + the replaced-deadline programmes of harness/cmd/ttltour, validated by TraceKs.
+    Returns dict(mismatches=[(record, path)], programmes, events)."""
+    tool = build_tool("ttltour")
+    d = common.scratch("ttlr-")
+    trace = os.path.join(d, "ttl.ndjson")
+    p = subprocess.run([tool, "-random", str(n), "-seed", str(seed), "-out", trace], stdin=subprocess.DEVNULL, stdout=subprocess.PIPE, stderr=subprocess.PIPE, text=True, timeout=600)
+    if p.returncode != 0:
+        common.die_infra("ttltour failed: " + p.stderr[-2000:])
+    summ = json.loads([l for l in p.stdout.splitlines() if l.startswith("SUMMARY ")][0][8:])
+    r = validate_trace(trace)
+    return {"mismatches": [(m, trace) for m in r["mismatches"]], "programmes": summ["programmes"], "events": summ["events"]}
+
+
 def explain(m, trace_path=None, context=6):
     """Human-readable description of a mismatch (with the preceding commands of its programme)."""
     lines = []
